@@ -37,7 +37,8 @@ LineView == line
 \* DATA statements by grammar rather than by lexeme soup: two items of every kind (numeric, word,
 \* quoted, empty, explicitly empty, quoted text that looks numeric, a quote inside a word, an open
 \* quote, padded, exponent form, nan) around every separator spelling, with every kind of tail.
-DItems == { B("1"), B("x"), B("\"a\""), B("\"\""), <<>>, B("\"-1\""), B("a\"b"), B("\"a"), B(" x y "), B("-1E3"), B("nan") }
+DItems == { <<194, 160>> \o B("\"a\""), <<11>> \o B("x"),      \* a no-break space before a quote, a vertical tab before a word: blanks to `trim`, not to ASCII tests
+            B("1"), B("x"), B("\"a\""), B("\"\""), <<>>, B("\"-1\""), B("a\"b"), B("\"a"), B(" x y "), B("-1E3"), B("nan") }
 DSeps == { B(","), B(" , "), <<44, 9>> }
 DPosts == { <<>>, B(":PRINT"), B(" :REM"), B(" ") }
 DataLines == { B("DATA") \o sp \o a \o sep \o b \o post : sp \in {<<>>, B(" ")}, a \in DItems, b \in DItems, sep \in DSeps, post \in DPosts }
